@@ -64,13 +64,14 @@ def attrsSetAttribute (items : List Attribute) (name value : Bytes) : Option (Li
     | some items' => some items'
     | none => some (items ++ [{ name := lname, value := value, raw := none }])
 
-/-- attributes.rs:252 `Attributes::remove_attribute`: new list and "something was removed". -/
+/-- attributes.rs:91 `Attribute::lookup_name`: a name used for a LOOKUP (`get_attribute`, `has_attribute`,
+`remove_attribute`) is lower-cased and encoded, not validated (UTF-8 document: every string is encodable). -/
+def attrLookupName (name : Bytes) : Bytes := asciiLowerBytes name
+
+/-- attributes.rs:258 `Attributes::remove_attribute`: new list and "something was removed". -/
 def attrsRemoveAttribute (items : List Attribute) (name : Bytes) : List Attribute × Bool :=
-  match attrNameFromString (asciiLowerBytes name) with
-  | none => (items, false)
-  | some lname =>
-    let items' := items.filter fun a => !eqCaseInsensitive a.name lname
-    (items', items.length != items'.length)
+  let items' := items.filter fun a => !eqCaseInsensitive a.name (attrLookupName name)
+  (items', items.length != items'.length)
 
 /-- attributes.rs:321 `impl Serialize for &mut Attributes`: a space before every attribute. -/
 def attrsIntoBytes (items : List Attribute) : Bytes :=
@@ -78,9 +79,7 @@ def attrsIntoBytes (items : List Attribute) : Bytes :=
 
 /-- attributes.rs:193 `map_attribute` + `get_attribute`: value of the first matching attribute. -/
 def attrsGetAttribute (items : List Attribute) (name : Bytes) : Option Bytes :=
-  match attrNameFromString (asciiLowerBytes name) with
-  | none => none
-  | some lname => (items.find? fun a => eqCaseInsensitive a.name lname).map (·.value)
+  (items.find? fun a => eqCaseInsensitive a.name (attrLookupName name)).map (·.value)
 
 /-! ### Start tag (tokens/start_tag.rs) -/
 
